@@ -95,9 +95,9 @@ Lemma raw_got_event_Y : forall s j, Y true s -> (j = KICK_RAW \/ (inr16 j /\ rw_
   PostY true s (raw_got_event sc s j).
 Proof.
   intros s j H JR. pose proof (y_j _ _ _ H) as Jh. unfold raw_got_event.
-  pose proof (ksame_read (kern s) (rw_rfd s j) (if efd_raw s =? 0 then 1024 else 8)) as KS.
-  pose proof (KX_read (kern s) (rw_rfd s j) (if efd_raw s =? 0 then 1024 else 8) (y_kx _ _ _ H)) as KR.
-  destruct (k_read (kern s) (rw_rfd s j) (if efd_raw s =? 0 then 1024 else 8)) as [k1 [n|e]]; cbn [fst] in KS, KR.
+  pose proof (ksame_read (kern s) (rw_rfd s j) (if raw_is_pipe s j then 1024 else 8)) as KS.
+  pose proof (KX_read (kern s) (rw_rfd s j) (if raw_is_pipe s j then 1024 else 8) (y_kx _ _ _ H)) as KR.
+  destruct (k_read (kern s) (rw_rfd s j) (if raw_is_pipe s j then 1024 else 8)) as [k1 [n|e]]; cbn [fst] in KS, KR.
   - destruct (n =? 0).
     + cbn [PostY halt]. apply G2_halt; [|exact I]. apply (G2_trace sc s); [reflexivity|apply H].
     + pose proof (J_set_kern_plain true s k1 Jh KS) as J1.
